@@ -1,7 +1,7 @@
 From Coq Require Import Extraction ExtrOcamlBasic.
-From SL Require Import Ctlog.Run Ctlog.Legacy.
+From SL Require Import Ctlog.Run Ctlog.Legacy Ctlog.Example.
 Extraction Language OCaml.
 Extraction "seq_gen.ml" byte_of_N byte_to_N parse_dec_Z decZ dec
   init step_show show_world store_keys store_digest mkEntry mkCfg mkCp
   EvClock FOk OB UHash SCancel
-  cache_get2 lc_load lc_drop truncate_rows show_get mkLc.
+  cache_get2 lc_load lc_drop truncate_rows show_get mkLc toy_sha.
